@@ -119,7 +119,11 @@ func (vc *VC) instr(ins ssa.Instruction) {
 	case *ssa.Panic:
 		vc.panicInstr(ins)
 	case *ssa.Return:
-		vc.ret(ins)
+		if len(vc.inlStack) > 0 {
+			vc.inlineRet(ins)
+		} else {
+			vc.ret(ins)
+		}
 	case *ssa.If, *ssa.Jump:
 	default:
 		vc.abstracted(fmt.Sprintf("instr %T", ins))
